@@ -33,6 +33,8 @@ type Spec struct {
 	NoOps           []string `json:"noops"`
 	TimerAnyTime    bool     `json:"timer_any_time"`
 	BudgetS         int      `json:"budget_s"`
+	SkipInit        []string `json:"skip_init"`
+	GoAsCall        []string `json:"go_as_call"`
 	Note            string   `json:"note"`
 }
 
@@ -143,7 +145,7 @@ func main() {
 		c := exec.Config{Unwind: pick(sp.Unwind, *unwind), MaxSteps: pick(sp.MaxSteps, *steps), MaxDepth: pick(sp.MaxDepth, *depth),
 			MaxAlloc: pick64(sp.MaxAlloc, *alloc), MaxPaths: sp.MaxPaths, Solver: *solver, TimeoutMs: *timeout, Workers: *workers,
 			AllocViolation: sp.AllocViolation, UnwindViolation: sp.UnwindViolation, PanicOK: sp.PanicOK, Preempt: sp.Preempt,
-			RaceFields: sp.RaceFields, NoOps: sp.NoOps, TimerAnyTime: sp.TimerAnyTime, Verbose: *verbose, DumpDir: *dump, Seed: *seed, SelfCheck: *selfcheck}
+			RaceFields: sp.RaceFields, NoOps: sp.NoOps, TimerAnyTime: sp.TimerAnyTime, Verbose: *verbose, DumpDir: *dump, Seed: *seed, SelfCheck: *selfcheck, SkipInit: sp.SkipInit, GoAsCall: sp.GoAsCall}
 		if sp.BudgetS > 0 {
 			c.Deadline = time.Now().Add(time.Duration(sp.BudgetS) * time.Second)
 		}
